@@ -15,7 +15,7 @@ import (
 func init() {
 	core.Register(&core.Monitor{
 		ID:        "C10",
-		Technique: "reference-model monitor (field permutation, dyadic expansion) + round-trip relations between calls",
+		Technique: "reference-model monitor (field permutation, dyadic expansion) + round-trip relations between calls + concurrent scenarios (4-64 goroutines issuing the same judged calls at once) + hostile scheduler widths",
 		Rule: "per case: a list of 0-10 valid IDs with asymmetric values (x != y != f, h != v, negative f, repeated entries), converted spatial->extended->spatial and extended->spatial->extended " +
 			"(element-wise identity, length and order), each direction against the reference permutation; parse/print/FieldParams/getters of the object; GetVoxelIDfromSpatialID; " +
 			"expansion of an extended ID with |h-v| <= 4 into spatial IDs (duplicate-free, at max(h,v), set equal to the dyadic descendants, count 4^d or 2^d). " +
